@@ -113,6 +113,10 @@ def step (_ : Unit) (line : String) : Unit × String :=
       else if r == 0 && !spanOk (tablesOf arch) (posNames (tablesOf arch) (namesOf arch)) (match s with | c :: _ => c - 97 | [] => 26) then "BAD unsorted-span"
       else "BAD lookup"
     | _, _ => "bad-op"
+  | ["mon_a64", e0, e1] =>
+    match parseEmit e0 "e0=", parseEmit e1 "e1=" with
+    | some a, some b => (match violationA64 a b with | none => "good" | some c => "BAD " ++ c)
+    | _, _ => "bad-op"
   | ["mon_inst", exp, v, e0, e1] =>
     let ex : Option Expect := if exp == "allow" then some .allow else if exp == "exclude" then some .exclude
                               else if exp == "any" then some .any else none
